@@ -382,6 +382,7 @@ def run(ctx):
     _inline_cursor_monotone(ctx, repo)
     _batch_reference_index(ctx, repo)
     _derived_circuits_keep_tags(ctx, repo)
+    _moment_subtraction_is_per_occurrence(ctx, repo)
     ctx.decided.append('C05.l placement bookkeeping keeps, per control key, the latest moment that reads it (running maximum)')
     ctx.decided.append('C05.k the control keys the placement logic orders operations by cover every child of a wrapping operation')
     ctx.decided.append('C05.j a one-shot OP_TREE / Iterable argument is walked once: after it has been flattened into a local, the raw argument is not consumed again')
@@ -1055,6 +1056,30 @@ def _batch_reference_index(ctx, repo):
                bad[0].lineno if bad else c.lineno)
     if n == 0:
         raise AnalysisError('Circuit.insert: earliest_available_moment(.., end_moment_index=<name>) inside a loop vanished')
+
+
+def _moment_subtraction_is_per_occurrence(ctx, repo):
+    """C05.r - Moment.__sub__ removes one occurrence per subtracted operation."""
+    ctx.decided.append('C05.r Moment.__sub__ consumes its removal collection per matched operation (a moment may hold equal qubit-less operations, e.g. two global phases): structure only')
+    ctx.rule('C05.r', 'subtraction is per occurrence: Moment.__sub__ pairs every operation it drops with one consumed entry of what was asked to be removed - a .remove / .discard / .pop or a '
+             'count decrement inside its loop, or Counter arithmetic; a plain membership filter drops every equal operation (both global phases of a moment when one was subtracted) and '
+             'changes the unitary of circuit code that peels operations off moments', floor=1, style='MPT')
+    ci = repo.cls('cirq.circuits.moment.Moment')
+    fn = ci.methods.get('__sub__')
+    if fn is None:
+        raise AnalysisError('C05.r: Moment.__sub__ not found')
+    consuming = []
+    for l in ast.walk(fn):
+        if isinstance(l, (ast.For, ast.While, ast.ListComp, ast.GeneratorExp, ast.SetComp)):
+            for x in ast.walk(l):
+                if isinstance(x, ast.Call) and isinstance(x.func, ast.Attribute) and x.func.attr in ('remove', 'discard', 'pop', 'popleft', 'subtract'):
+                    consuming.append(x)
+                if isinstance(x, ast.AugAssign) and isinstance(x.op, ast.Sub):
+                    consuming.append(x)
+    counter = [x for x in ast.walk(fn) if isinstance(x, ast.Call) and ast.unparse(x.func).split('.')[-1] == 'Counter']
+    ok = bool(consuming or counter)
+    ctx.ob('C05.r', 'cirq.circuits.moment.Moment.__sub__:per-occurrence', ok, '' if ok else
+           'Moment.__sub__ never consumes an entry of the operations to remove: every operation equal to a subtracted one is dropped, whatever its multiplicity', ci.mod.rel, fn.lineno)
 
 
 def _derived_circuits_keep_tags(ctx, repo):
